@@ -148,6 +148,17 @@ for line in sys.stdin:
                 buf = ByteBuf()
                 obj.encode(buf)
             out.write('ENC %s %s\n' % (mid, binascii.hexlify(buf.to_bytes()).decode()))
+        elif cmd == 'DECX':
+            # the same object decodes two messages one after the other; the answer describes the second decode
+            cls = find_class(toks[2])
+            if cls is None:
+                out.write('ERR %s unsupported notype %s\n' % (mid, toks[2]))
+                continue
+            obj = cls()
+            obj.decode(ByteBuf(binascii.unhexlify(toks[3])))
+            buf = ByteBuf(binascii.unhexlify(toks[4]) if len(toks) > 4 else b'')
+            obj.decode(buf)
+            out.write('DEC %s %d %s\n' % (mid, buf.read_index, dump(obj)))
         elif cmd == 'DEC':
             cls = find_class(toks[2])
             if cls is None:
